@@ -171,6 +171,17 @@ func runC12(c *Ctx) {
 					if al, ok := x.X.(*ssa.Alloc); ok && al.Comment == "complit" {
 						continue // construction of a new entry
 					}
+					onlyWritten := x.Referrers() != nil && len(*x.Referrers()) > 0
+					for _, r := range *x.Referrers() {
+						if st, isSt := r.(*ssa.Store); !isSt || st.Addr != x {
+							if _, dbg := r.(*ssa.DebugRef); !dbg {
+								onlyWritten = false
+							}
+						}
+					}
+					if _, local := x.X.(*ssa.Alloc); local && onlyWritten {
+						continue // construction of a new entry in a named local
+					}
 					v = x
 				}
 			}
@@ -322,35 +333,45 @@ func runC12(c *Ctx) {
 	}
 	naddl := len(callsTo(serve, func(f *types.Func) bool { return f == addl }))
 	for i, a := range adds {
-		okGuard := false
+		okGuard := true
 		detail := ""
-		reports := map[string]bool{}
-		for _, f := range factsAt(a.Site.Block()) {
-			// WRSTimeout > 0
-			if b, ok := f.V.(*ssa.BinOp); ok && isFieldLoad(b.X, fWRS) {
-				if k, isC := constInt(b.Y); isC && k == 0 && ((b.Op == token.GTR && f.Truth) || (b.Op == token.LEQ && !f.Truth)) {
-					okGuard = true
-					detail = "WRSTimeout > 0"
+		// every way into the insert (value-level guards such as `ttl > 0` with ttl chosen per case are followed per path)
+		alts := nearPathFacts(a.Site, 32)
+		for _, facts := range alts {
+			okPath := false
+			reports := map[string]bool{}
+			for _, f := range facts {
+				// WRSTimeout > 0
+				if op, x, y, isCmp := factOperands(f); isCmp && isFieldLoad(x, fWRS) {
+					if k, isC := constInt(y); isC && k == 0 && ((op == token.GTR && f.Truth) || (op == token.LEQ && !f.Truth)) {
+						okPath = true
+						detail = "WRSTimeout > 0"
+					}
+					continue
 				}
-				continue
+				if f.Truth {
+					continue
+				}
+				// booleans known to be false here: which sampler reports do they carry?
+				for v := range backSlice(f.V, func(v ssa.Value) bool { return isSamplerReport(v) != "" }) {
+					if r := isSamplerReport(v); r != "" {
+						reports[r] = true
+					}
+				}
 			}
-			if f.Truth {
-				continue
-			}
-			// booleans known to be false here: which sampler reports do they carry?
-			for v := range backSlice(f.V, func(v ssa.Value) bool { return isSamplerReport(v) != "" }) {
-				if r := isSamplerReport(v); r != "" {
-					reports[r] = true
+			if !okPath {
+				if reports["FindAnswer"] && len(reports) == 1+naddl && naddl >= 2 {
+					okPath = true
+					detail = "the weighted reports of FindAnswer and of both additional-section samplers are all false"
+				} else {
+					detail = fmt.Sprintf("known false at the insert on some path: %v (need FindAnswer and %d AdditionalSectionForRecords reports)", keysOf(reports), naddl)
+					okGuard = false
+					break
 				}
 			}
 		}
-		if !okGuard {
-			if reports["FindAnswer"] && len(reports) == 1+naddl && naddl >= 2 {
-				okGuard = true
-				detail = "the weighted reports of FindAnswer and of both additional-section samplers are all false"
-			} else {
-				detail = fmt.Sprintf("known false at the insert: %v (need FindAnswer and %d AdditionalSectionForRecords reports)", keysOf(reports), naddl)
-			}
+		if len(alts) == 0 {
+			detail = "the insert is not reachable" // dead code caches nothing
 		}
 		c.Check(rule, fmt.Sprintf("%s|add#%d|unweighted-or-wrs-timeout", name, i), okGuard, a.Site.Pos(), "a randomly sampled answer is cached only with an explicit WRS timeout. "+detail)
 	}
